@@ -710,7 +710,20 @@ def _cfg_env(b):
         # the adapter module fills in the defaults of the named adapter: modelled as "the user's parameters plus a marker"
         yield st, (type_for(name), st.new_py('dict', dict(kw, **{'<defaults of %s>' % name: True})))
 
-    b.bind('adapters', Obj('adapters', from_config=Model('from_config', from_config)))
+    kinds = {k: Obj(f'<adapters.{k}>', kind=k, __name__=k) for k in ('HashAdapter', 'ChunkerAdapter', 'CipherAdapter', 'KDFAdapter', 'MACAdapter')}
+    b.bind('adapters', Obj('adapters', from_config=Model('from_config', from_config), **kinds))
+    b.bind('exceptions', shared.EXCEPTIONS)
+
+    def issubclass_(interp, st, args, kwargs):
+        t, e = args
+        if not (isinstance(t, Model) and isinstance(e, Obj) and 'kind' in e._attrs):
+            raise sym.Unsupported('issubclass of something else')
+        # the REAL class hierarchy of adapters.py
+        ok = e._attrs['kind'] in source.class_mro(shared.ADAPTERS_PY, t.name)
+        st.emit('kind_check', adapter=t.name, expected=e._attrs['kind'], result=ok)
+        yield st, ok
+
+    b.bind('issubclass', Model('issubclass', issubclass_))
     b.type_for = type_for
 
 
@@ -723,6 +736,12 @@ def make_config_setup(variant):
         elif variant == 'plain':
             b.bind('settings', mk('dict', {'hashing': mk('dict', {'name': 'sha2', 'bits': 256}), 'chunking': mk('dict', {'min_length': 8, 'max_length': 64}),
                                             'encryption': None}))
+        elif variant.startswith('wrong_kind:'):
+            section, name = variant.split(':')[1:]
+            if section == 'cipher':
+                b.bind('settings', mk('dict', {'encryption': mk('dict', {'cipher': mk('dict', {'name': name})})}))
+            else:
+                b.bind('settings', mk('dict', {section: mk('dict', {'name': name}), 'encryption': None}))
         else:
             b.bind('settings', mk('dict', {'encryption': mk('dict', {'cipher': mk('dict', {'name': 'chacha20_poly1305'}), 'kdf': mk('dict', {'n': 4})})}))
     return setup
@@ -732,6 +751,11 @@ def make_config_post(prop, variant):
     def post(res):
         me = res.builder.me
         for p in res.paths:
+            if variant.startswith('wrong_kind:'):
+                # an adapter that exists but is of another kind (a cipher named as the hash, a hash as the chunker ...) is REJECTED with the
+                # user-facing error: init stops before anything is uploaded (D17: such a config was stored and no command could use it)
+                res.oblige(p, f'{prop}.make_config[{variant}].adapter_of_another_kind_is_rejected', z3.BoolVal(p.kind == 'raise' and p.value.cls == 'ReplicatError'))
+                continue
             if p.kind != 'return':
                 res.oblige(p, f'{prop}.make_config[{variant}].total', z3.BoolVal(False))
                 continue
@@ -798,7 +822,7 @@ def instantiate_config_post(prop, variant):
 
 def config_units(prop):
     return [Unit(f'{prop}.make_config[{v}]', REPO_PY, 'Repository._make_config', make_config_setup(v), make_config_post(prop, v), prop=prop)
-            for v in ('none', 'plain', 'encrypted')] + [
+            for v in ('none', 'plain', 'encrypted', 'wrong_kind:hashing:aes_gcm', 'wrong_kind:chunking:sha2', 'wrong_kind:cipher:blake2b', 'wrong_kind:hashing:gclmulchunker')] + [
             Unit(f'{prop}.instantiate_config[{v}]', REPO_PY, 'Repository._instantiate_config', instantiate_config_setup(v),
                  instantiate_config_post(prop, v), prop=prop) for v in ('plain', 'encrypted')]
 
